@@ -463,9 +463,18 @@ SproutClauses(s, m, e) ==
    \cup (IF s.cfg.skipsame = 1 /\ \E x \in seeds : \E i \in DOMAIN e.snap.demes :
               e.snap.demes[i].par = x[1] /\ e.snap.demes[i].seed # <<>> /\ e.snap.demes[i].seed[1] = x[2][1]
          THEN {"C10_SkipSameSprout"} ELSE {})
-   \cup (IF \E i \in DOMAIN e.gen : ~(/\ e.gen[i][1] \in Ids(s)
-                                      /\ (s.D[e.gen[i][1]].active \/ viaLocal)
-                                      /\ ~IsLeafLevel(s, Lvl(s, e.gen[i][1])))
+   \* C10 "candidates come only from the current populations of active non-leaf demes (the local-method generator
+   \*      additionally offers the best individual of a just-finished deme)": with that generator the parents are the
+   \* active demes above the last two levels and the demes of the last-but-one level that stopped in the metaepoch
+   \* just finished (sprout_generators.py:55-76) - not demes that stopped earlier
+   \cup (IF \E i \in DOMAIN e.gen :
+              LET p == e.gen[i][1] IN
+              ~(/\ p \in Ids(s)
+                /\ ~IsLeafLevel(s, Lvl(s, p))
+                /\ IF viaLocal
+                   THEN \/ (s.D[p].active /\ Lvl(s, p) < NLevels(s) - 2)
+                        \/ (Lvl(s, p) = NLevels(s) - 2 /\ ~s.D[p].active /\ s.D[p].startedAt + s.D[p].me + 1 = s.mc)
+                   ELSE s.D[p].active)
          THEN {"C10_CandidatesFromActiveNonLeaves"} ELSE {})
 
 \* C20: the report probe
